@@ -698,3 +698,99 @@ def r13_10(ctx):
                     ctx.bad(f"{short}|{hit[0][2:]}|strict-deadline", f"{short} treats the deadline {hit[0][2:]} as due only when it is strictly in the past, while poll_at reports "
                             "the deadline itself: polled exactly then nothing happens and poll_at keeps answering the same instant (no progress / busy loop)", body=b, bb=bi)
     ctx.need(n >= 15, f"inclusive deadline comparisons (found {n})")
+
+
+@rule('R12.7', ['C12', 'C20', 'C10'], floor=15, clause='in the functions that start a fragmented transmission every write to the fragmenter (link destination, identification, header copy, offsets, buffer) is behind the idle test: a packet that is dropped because the fragmenter is busy leaves the pending fragments and their addressing untouched')
+def r12_7(ctx):
+    from .c12 import FR, idle_pred
+    F = ctx.F
+    frs = {FR, FR.rsplit('::', 1)[0] + '::Ipv4Fragmenter', FR.rsplit('::', 1)[0] + '::SixlowpanFragmenter'}
+    starters = set()
+    for w in F.writers_of(FR, 'packet_len', kinds=('store',)):
+        b = F.body(w['fn'])
+        if (b.meta.get('root') or w['fn']).rsplit('::', 1)[-1] in ('new', 'reset'):
+            continue
+        if const_int(simplify(store_origin(F, b, w))) != 0:
+            starters.add(w['fn'])
+    ctx.need(len(starters) >= 2, "fragment starters (dispatch_ip, dispatch_sixlowpan)")
+    n = 0
+    for w in F.field_writes():
+        if w['fn'] not in starters or w['adt'] not in frs:
+            continue
+        b = F.body(w['fn'])
+        fnm = w['fn'].rsplit('::', 1)[-1]
+        n += 1
+        bad = unguarded(F, b, [w['bb']], idle_pred(F))
+        if bad:
+            ctx.bad(f"{fnm}|{w['field']}|write-while-busy", f"{fnm} writes fragmenter field {w['field']} on a path that has not yet established that the fragmenter is idle: "
+                    "a packet that is then dropped (\"fragmentation buffer in use\") has already changed the state the pending fragments are sent with", body=b, bb=w['bb'], path=bad[0][1])
+        else:
+            ctx.ok((fnm, w['field'], w['kind'], w['bb']), sample=dict(fn=fnm, field=w['field'], behind='fragmenter.is_empty() | finished()'))
+    ctx.need(n >= 15, f"fragmenter writes in the starters (found {n})")
+
+
+@rule('R15.7', ['C15', 'C01', 'C04'], floor=2, clause='add_then_remove_front answers only in two ways: the guaranteed-success path (an offset-0 segment that ends inside the leading hole shrinks that hole and reports its own size) or the general path that records the range with add() and then reports what remove_front() took')
+def r15_7(ctx):
+    from ..wirelib import ok_sites
+    F = ctx.F
+    AS = 'storage::assembler::Assembler'
+    CT = 'storage::assembler::Contig'
+    b = ctx.method(AS, 'add_then_remove_front')
+    add = ctx.method(AS, 'add')
+    rf = ctx.method(AS, 'remove_front')
+    oks = ok_sites(b)
+    ctx.need(len(oks) >= 2, "the two Ok answers of add_then_remove_front")
+    fast = lambda f: f[0] == 'rel' and f[1] == 'Lt' and 'A:3' in leafs(f[2]) and any(l == f"F:{CT}.hole_size" for l in leafs(f[3]))
+    added = lambda f: f[0] == 'is' and f[2] in ('Continue', 'Ok') and any(l == 'C:' + add.key for l in leafs(f[1]))
+    for bi in oks:
+        if not unguarded(F, b, [bi], fast):
+            # the fast answer is the segment's own size
+            val = None
+            for si, s in enumerate(b.blocks[bi]['s']):
+                if s[0] == 'a' and s[1] == [0, []] and s[2][0] == 'agg':
+                    val = strip(simplify(F.origin.operand(b, s[2][2][0], bi, si)))
+            if val == ('arg', 3):
+                ctx.ok(('fast-path', 'reports size'), sample=dict(path='offset == 0 && size < contigs[0].hole_size', answer='size'))
+            else:
+                ctx.bad("add_then_remove_front|fast-answer", f"the guaranteed-success path answers {show(val)[:60]} instead of the segment size", body=b, bb=bi)
+            continue
+        if unguarded(F, b, [bi], added):
+            ctx.bad("add_then_remove_front|answer-without-add", "add_then_remove_front can answer Ok for a segment that does not end inside the leading hole without having "
+                    "recorded it with add(): the part of the segment beyond the first range is lost and following ranges are not merged", body=b, bb=bi)
+            continue
+        val = None
+        for si, s in enumerate(b.blocks[bi]['s']):
+            if s[0] == 'a' and s[1] == [0, []] and s[2][0] == 'agg':
+                val = strip(simplify(F.origin.operand(b, s[2][2][0], bi, si)))
+        if val is not None and val[0] == 'call' and val[1] == rf.key:
+            ctx.ok(('general-path', 'add then remove_front'), sample=dict(path='add(offset, size)?', answer='remove_front()'))
+        else:
+            ctx.bad("add_then_remove_front|general-answer", f"after add() the function answers {show(val)[:60]} instead of what remove_front() removed", body=b, bb=bi)
+
+
+@rule('R15.8', ['C15', 'C12', 'C20'], floor=2, clause='peek_front and remove_front report the leading range only when it starts at offset 0: a non-zero answer is behind `!front.has_hole()` in both (the reassembler decides "complete" from peek_front)')
+def r15_8(ctx):
+    F = ctx.F
+    AS = 'storage::assembler::Assembler'
+    CT = 'storage::assembler::Contig'
+    hh = F.method(CT, 'has_hole')
+    nohole = lambda f: (f[0] == 'bool' and f[2] is False and hh is not None and is_call(strip(f[1]), hh.key.rsplit('::', 2)[-2] + '::has_hole')) or \
+        (f[0] == 'rel' and f[1] == 'Eq' and any(l == f"F:{CT}.hole_size" for l in leafs(f[2])) and const_of(f[3]) == 0)
+    for fn in ('peek_front', 'remove_front'):
+        b = ctx.method(AS, fn)
+        sites = []
+        for bi, bl in enumerate(b.blocks):
+            if bl['cl']:
+                continue
+            for si, s in enumerate(bl['s']):
+                if s[0] == 'a' and s[1] == [0, []]:
+                    o = strip(simplify(F.origin.rvalue(b, s[2], bi, si, 0, None)))
+                    if const_of(o) != 0:
+                        sites.append(bi)
+        ctx.need(sites, f"non-zero answer of Assembler::{fn}")
+        bad = unguarded(F, b, sites, nohole)
+        if bad:
+            ctx.bad(f"{fn}|answer-behind-hole", f"Assembler::{fn} can report the size of a leading range that does not start at offset 0 (it is not behind `!has_hole()`): "
+                    "a datagram whose first fragment is missing is judged complete / data behind a gap is handed to the reader", body=b, bb=bad[0][0])
+        else:
+            ctx.ok((fn, 'no-hole'), sample=dict(fn=fn, nonzero_answer_behind='!front.has_hole()'))
